@@ -5536,10 +5536,17 @@ class CodegenCtx:
         else:
             raise NotImplementedError("unsupported intexpr type", intexpr)
 
+    def _encode_string(self, value: str):
+        # Matches compare input bytes against ord(character), so characters 0-255 (e.g. from \xHH escapes) denote single bytes.
+        try:
+            return value.encode('latin-1')
+        except UnicodeEncodeError:
+            return value.encode('utf-8')
+
     def _escape_string(self, value: Union[bytes, str]):
         result = ""
         if type(value) is str:
-            bytes_value = value.encode('utf-8')
+            bytes_value = self._encode_string(value)
         else:
             bytes_value = value
         for i in bytes_value:
@@ -5561,7 +5568,7 @@ class CodegenCtx:
         """
 
         if isinstance(value, str):
-            escaped_length = len(value.encode('utf-8'))
+            escaped_length = len(self._encode_string(value))
         else:
             escaped_length = len(value)
 
